@@ -104,6 +104,32 @@ def _upgrade_result(r):
     return _upgrade(r) if isinstance(r, np.ndarray) else r
 
 
+def _floatish(obj, dtype):
+    """should a concrete payload become an exact (rational) symbolic array?  Only float data: index / label arrays stay numpy's"""
+    if not ACTIVE["on"]:
+        return False
+    if dtype is not None:
+        try:
+            return np.dtype(dtype).kind == "f"
+        except TypeError:
+            return False
+    if isinstance(obj, np.ndarray):
+        return obj.dtype.kind == "f"
+    if isinstance(obj, (float, np.floating)):
+        return True
+    if isinstance(obj, (list, tuple)):
+        flat = obj
+        depth = 0
+        while flat and isinstance(flat[0], (list, tuple)) and depth < 4:
+            flat = [e for sub in flat for e in (sub if isinstance(sub, (list, tuple)) else [sub])]
+            depth += 1
+        if not flat:
+            return False
+        ok = all(isinstance(e, (int, float, np.floating, np.integer)) and not isinstance(e, bool) for e in flat)
+        return ok and any(isinstance(e, (float, np.floating)) for e in flat)
+    return False
+
+
 def _array(obj, dtype=None, *a, **k):
     if isinstance(obj, SymArray):
         if dtype is not None and np.dtype(dtype).kind in "iub":
@@ -113,7 +139,23 @@ def _array(obj, dtype=None, *a, **k):
         if dtype is not None and np.dtype(dtype).kind in "iu":
             return as_sym(A._obj_array(obj)).astype(dtype)
         return as_sym(A._obj_array(obj) if not isinstance(obj, np.ndarray) else obj)
+    if _floatish(obj, dtype):
+        # concrete float data is carried as exact rationals so that no rounding enters the terms (floats are reals)
+        raw = np.array(obj, dtype, *a, **k) if dtype is not None else np.array(obj, *a, **k)
+        if raw.dtype.kind == "f":
+            return _exact(raw)
+        return raw
     return np.array(obj, dtype, *a, **k) if dtype is not None else np.array(obj, *a, **k)
+
+
+_LIFT = np.frompyfunc(Q.lift, 1, 1)
+
+
+def _exact(raw):
+    out = np.empty(raw.shape, dtype=object)
+    if raw.size:
+        out[...] = _LIFT(raw.astype(object))
+    return out.view(SymArray)
 
 
 def _asarray(obj, dtype=None, *a, **k):
